@@ -172,12 +172,21 @@ func (p *Prog) addFunc(f *ssa.Function) {
 }
 
 func (p *Prog) contractOf(f *ssa.Function) *FuncContract {
+	return p.contractOfVariant(f, "")
+}
+
+// contractOfVariant: in a variant pass only contracts of that variant may be used for module callees
+// (the base contracts describe a different setting, e.g. no interference).
+func (p *Prog) contractOfVariant(f *ssa.Function, variant string) *FuncContract {
 	key, ok := p.byFn[f]
 	if !ok {
 		if f.Pkg == nil {
 			return nil
 		}
 		key = f.Pkg.Pkg.Path() + "." + f.RelString(f.Pkg.Pkg)
+	}
+	if variant != "" {
+		return p.cs.Funcs[key+"@"+variant]
 	}
 	return p.cs.Funcs[key]
 }
